@@ -193,14 +193,14 @@ def bounds(tier):
             "conflict_shapes": [[4, 3, 4], [3, 4, 3, 3]],
         }
     return {
-        "shapes": [[4, 3, 4], [3, 4, 3, 3], [3, 4, 3], [4, 3, 3, 4]],
+        "shapes": [[4, 3, 4], [3, 4, 3, 3], [3, 4, 3]],
         "single_data": ["signed", "nonneg", "negative", "lowrank"],
         "single_ranks": [1, 2, 3],
         "single_iters": {3: [[o, i] for o in (1, 2, 5) for i in (1, 5, 10)], 4: [[o, i] for o in (1, 2, 5) for i in (1, 5, 10)]},
         "mixed_shapes": [[4, 3, 4], [3, 4, 3, 3]],
         "mixed_data": {3: ["signed", "nonneg", "negative"], 4: ["signed", "nonneg"]},
         "mixed_ranks": {3: [1, 2, 3], 4: [2, 3]},
-        "mixed_iters": {3: [[o, i] for o in (1, 2, 5) for i in (1, 5, 10)], 4: [[1, 1], [2, 5], [5, 10]]},
+        "mixed_iters": {3: [[1, 1], [1, 10], [2, 5], [5, 1], [5, 10]], 4: [[1, 1], [2, 5], [5, 10]]},
         "mixed_inits": ["svd", "random"],
         "conflict_shapes": [[4, 3, 4], [3, 4, 3, 3]],
     }
@@ -222,8 +222,10 @@ class C11(Check):
     design_ref = "DESIGN.md §4 C11"
     rule = ("complete product. single: 8 hard constraints x form {scalar; list, dict over every non-empty subset of modes} x "
             "per-mode parameter rotation x data class x shape (order 3-4, dims 3-4) x rank 1-3 x init {svd, random} x "
-            "(n_iter_max, n_iter_max_inner) in {1,2,5}x{1,5,10} (+ the ConstrainedCP class for the (2,5) budget); mixed: every "
-            "unordered pair of hard constraints x {list,dict}^2 x every ordered pair of disjoint non-empty mode sets; "
+            "(n_iter_max, n_iter_max_inner) in {1,2,5}x{1,5,10} (quick, order 4: the diagonal (1,1),(2,5),(5,10)) (+ the "
+            "ConstrainedCP class for the (2,5) budget); mixed: every unordered pair of hard constraints x {list,dict}^2 x every "
+            "ordered pair of disjoint non-empty mode sets x data x rank x init x a corner subset of the budgets; the exact "
+            "per-tier bound of every dimension is the table returned by bounds(tier) in vmc/props/c11.py; "
             "conflict: every unordered pair of the 12 constraint keywords x {scalar,list,dict}^2 x every pair of intersecting "
             "mode sets (must raise). A case is one call. Non-trivial iff (feasibility cases) the call returned and at least one "
             "inspected factor lies on the boundary of its constraint set (constraint active), or the call is a conflicting "
@@ -234,7 +236,8 @@ class C11(Check):
         "normalize / normalized_sparsity accept the whole-factor reading (docstring) as well as the column-wise reading; "
         "hard_sparsity is checked per column (weakest reading); monotone direction free but common to all columns",
         "unselected modes of a list request carry None; numpy.linalg.LinAlgError from the inner solve (degenerate Gram matrix) is guarded out and counted",
-        "init='random' draws from numpy's global RNG (random_state is ignored by the library); the global RNG is seeded per case and restored",
+        "init='random': random_state=0 is passed and numpy's global RNG is seeded per case and restored afterwards, so the run is "
+        "deterministic whichever of the two the library draws from",
     ]
 
     # -------------------------------------------------------------------------------- enumeration
